@@ -255,3 +255,73 @@ int tk12_gcm_seal(const unsigned char *key, int keylen, const unsigned char salt
     EVP_CIPHER_CTX_free(c);
     return ok ? 5 + bl : -1;
 }
+
+/* general (D)TLS <= 1.2 record sealing for a peer that holds the keys: hdr = the complete record header as it shall appear on
+ * the wire (5 bytes TLS, 13 bytes DTLS, length field is filled in here); seq8 = the 8 bytes bound into MAC / AAD (TLS: implicit
+ * sequence number; DTLS: epoch || sequence of the header). */
+int tk12_gcm_seal_ex(const unsigned char *key, int keylen, const unsigned char salt[4], const unsigned char seq8[8], const unsigned char *hdr, int hdrlen,
+    const unsigned char *pt, int ptlen, unsigned char *rec)
+{
+    EVP_CIPHER_CTX *c = EVP_CIPHER_CTX_new();
+    unsigned char nonce[12], aad[13];
+    int ol = 0, fl = 0, bl = 8 + ptlen + 16, ok;
+    memcpy(nonce, salt, 4);
+    memcpy(nonce + 4, seq8, 8);
+    memcpy(aad, seq8, 8);
+    aad[8] = hdr[0]; aad[9] = hdr[1]; aad[10] = hdr[2]; aad[11] = (unsigned char) (ptlen >> 8); aad[12] = (unsigned char) ptlen;
+    memcpy(rec, hdr, (size_t) hdrlen);
+    rec[hdrlen - 2] = (unsigned char) (bl >> 8); rec[hdrlen - 1] = (unsigned char) bl;
+    memcpy(rec + hdrlen, nonce + 4, 8);
+    ok = EVP_EncryptInit_ex(c, keylen == 16 ? EVP_aes_128_gcm() : EVP_aes_256_gcm(), NULL, NULL, NULL) &&
+         EVP_CIPHER_CTX_ctrl(c, EVP_CTRL_AEAD_SET_IVLEN, 12, NULL) &&
+         EVP_EncryptInit_ex(c, NULL, NULL, key, nonce) &&
+         EVP_EncryptUpdate(c, NULL, &ol, aad, 13) &&
+         (ptlen == 0 || EVP_EncryptUpdate(c, rec + hdrlen + 8, &ol, pt, ptlen)) &&
+         EVP_EncryptFinal_ex(c, rec + hdrlen + 8 + ptlen, &fl) &&
+         EVP_CIPHER_CTX_ctrl(c, EVP_CTRL_AEAD_GET_TAG, 16, rec + hdrlen + 8 + ptlen);
+    EVP_CIPHER_CTX_free(c);
+    return ok ? hdrlen + bl : -1;
+}
+
+/* GenericBlockCipher, MAC-then-encrypt, explicit IV (TLS 1.1+ / DTLS): AES-CBC with HMAC-SHA1 (maclen 20) or HMAC-SHA256 (32).
+ * padmode 0 = correct padding; 1 = one padding byte wrong (the MAC is right); 2 = a full extra block of padding (legal) */
+int tk12_cbc_seal_ex(const unsigned char *key, int keylen, const unsigned char *mackey, int maclen, const unsigned char seq8[8], const unsigned char *hdr, int hdrlen,
+    const unsigned char *pt, int ptlen, int padmode, unsigned char *rec)
+{
+    static unsigned char body[20000];
+    unsigned char mh[13], mac[64], iv[16];
+    unsigned int ml = 0;
+    int n, pad, i, ol = 0, fl = 0, ok;
+    HMAC_CTX *h = HMAC_CTX_new();
+    EVP_CIPHER_CTX *c = EVP_CIPHER_CTX_new();
+    if (ptlen + 64 + 16 + 256 > (int) sizeof(body))
+    {
+        return -1;
+    }
+    memcpy(mh, seq8, 8);
+    mh[8] = hdr[0]; mh[9] = hdr[1]; mh[10] = hdr[2]; mh[11] = (unsigned char) (ptlen >> 8); mh[12] = (unsigned char) ptlen;
+    HMAC_Init_ex(h, mackey, maclen, maclen == 20 ? EVP_sha1() : maclen == 32 ? EVP_sha256() : EVP_sha384(), NULL);
+    HMAC_Update(h, mh, 13);
+    HMAC_Update(h, pt, (size_t) ptlen);
+    HMAC_Final(h, mac, &ml);
+    HMAC_CTX_free(h);
+    memcpy(body, pt, (size_t) ptlen);
+    memcpy(body + ptlen, mac, (size_t) maclen);
+    n = ptlen + maclen;
+    pad = 16 - ((n + 1) % 16);
+    if (pad == 16) pad = 0;
+    if (padmode == 2) pad += 16;
+    for (i = 0; i <= pad; i++) body[n + i] = (unsigned char) pad;
+    if (padmode == 1 && pad > 0) body[n] ^= 0x01;
+    n += pad + 1;
+    for (i = 0; i < 16; i++) iv[i] = (unsigned char) (0xa0 + i + seq8[7]);
+    memcpy(rec, hdr, (size_t) hdrlen);
+    rec[hdrlen - 2] = (unsigned char) ((16 + n) >> 8); rec[hdrlen - 1] = (unsigned char) (16 + n);
+    memcpy(rec + hdrlen, iv, 16);
+    ok = EVP_EncryptInit_ex(c, keylen == 16 ? EVP_aes_128_cbc() : EVP_aes_256_cbc(), NULL, key, iv) &&
+         EVP_CIPHER_CTX_set_padding(c, 0) &&
+         EVP_EncryptUpdate(c, rec + hdrlen + 16, &ol, body, n) &&
+         EVP_EncryptFinal_ex(c, rec + hdrlen + 16 + ol, &fl);
+    EVP_CIPHER_CTX_free(c);
+    return ok ? hdrlen + 16 + n : -1;
+}
